@@ -273,3 +273,20 @@ func drawHeaderOpts(rt *rapid.T, rpc *spec.RPC, label string) []Opt {
 	}
 	return out
 }
+
+// drawValidReq draws a request that satisfies the declared validation rules and
+// carries every required query parameter.
+func drawValidReq(rt *rapid.T, w *WorldDesc, md *MethodDesc, label string) proto.Message {
+	req := drawReq(rt, w, md, label)
+	Repair(w, req.ProtoReflect(), 0)
+	if rpc := w.RPC(md.Key); rpc != nil {
+		m := req.ProtoReflect()
+		for _, q := range rpc.Query {
+			fd := m.Descriptor().Fields().ByName(protoreflect.Name(q.Field))
+			if q.Required && fd != nil && !fd.IsList() && !m.Has(fd) {
+				m.Set(fd, nonZeroValue(fd))
+			}
+		}
+	}
+	return req
+}
